@@ -22,3 +22,14 @@ From RS Require Import Schedule SchedInv SchedStruct PipelineSched PipelineSched
 Theorem C02_pipeline_result_valid : forall i perm nw, load i perm = Ok nw -> stmt_pipeline_valid nw.
 Proof. exact pipeline_valid_loaded. Qed.
 Print Assumptions C02_pipeline_result_valid.
+
+(** the JSON rendered from a schedule within formation and track limits passes the formation / track clauses of
+    check_C02, for every network loaded from an instance with non-negative limits (JSON limits are unsigned) *)
+From RS Require Import LoadStmts Render RenderStmts RenderFacts1.
+Theorem C02_rendered_formations_within_limits : forall i perm nw,
+  valid_instance_b i = true -> inst_limits_nonneg_b i = true -> load i perm = Ok nw -> stmt_render_C02_formations nw.
+Proof. exact render_C02_loaded. Qed.
+Print Assumptions C02_rendered_formations_within_limits.
+Theorem C02_rendered_unrestricted_refuted : ~ (forall nw, stmt_render_C02_formations nw).
+Proof. exact render_C02_refuted. Qed.
+Print Assumptions C02_rendered_unrestricted_refuted.
